@@ -489,6 +489,10 @@ class Gen(object):
                 members[-1] = Member(mn, members[-1].ty)
                 if self.avoid(members[-1], 'member', self.spec_resolve):
                     members.pop()
+        if depth >= 1 and r.random() < self.features.get('twins', .15):
+            for tm in self.twins():
+                if not self.avoid(tm, 'member', self.spec_resolve):
+                    members.append(tm)
         ext = r.random() < self.features.get('seq_ext', .2)
         additions = []
         if ext and self.features.get('additions') and r.random() < self.features['additions']:
@@ -499,12 +503,52 @@ class Gen(object):
                     additions.append(m)
         return TSeq(members, ext=ext, additions=additions)
 
+    def twins(self):
+        """Two sibling inline SEQUENCEs whose members have the SAME name and type but DIFFERENT DEFAULTs
+        (generators of per-member C constants / conditions must not confuse them)."""
+        r = self.rng
+        inner = r.choice(MEMBER_NAMES)
+        kind = r.choice(['octets', 'octets', 'enum', 'int', 'bool'])
+        if kind == 'octets':
+            lo, hi = r.choice([(0, 4), (0, 3), (1, 5), (2, 2), (0, 16)])
+            mk = lambda: TOctets(lo, hi)  # noqa: E731
+            n1 = r.randint(lo, hi)
+            d1 = bytes(r.randrange(256) for _ in range(n1))
+            n2 = r.randint(lo, hi)
+            d2 = bytes(r.randrange(256) for _ in range(n2))
+            if d1 == d2:
+                d2 = bytes((b + 1) % 256 for b in d1) if d1 else bytes([7] * max(hi, 1))[:hi]
+            if d1 == d2:
+                return []
+        elif kind == 'enum':
+            names = r.sample(ENUM_NAMES, r.choice([2, 3, 5]))
+            items = list(zip(names, range(len(names))))
+            mk = lambda: TEnum(list(items))  # noqa: E731
+            d1, d2 = names[0], names[-1]
+        elif kind == 'int':
+            lo, hi = r.choice([(0, 7), (-5, 10), (0, 255), (0, 65536), (-32768, 32767)])
+            mk = lambda: TInt(lo, hi)  # noqa: E731
+            d1, d2 = lo, hi
+        else:
+            mk = lambda: TBool()  # noqa: E731
+            d1, d2 = True, False
+        out = []
+        for nm, d in (('tw-a', d1), ('twB', d2)):
+            extra = [Member('z', TBool())] if r.random() < .5 else []
+            out.append(Member(nm, TSeq(extra + [Member(inner, mk(), default=d, has_default=True)])))
+        return out
+
     def choice(self, depth, names):
         r = self.rng
         cnt = r.choice([1, 2, 2, 3, 4, 5, 8, 9])
         anames = r.sample(MEMBER_NAMES, cnt)
-        return TChoice([(n, self.any_type(depth - 1, names)) for n in anames],
-                       ext=r.random() < self.features.get('choice_ext', 0))
+        alts = [(n, self.any_type(depth - 1, names)) for n in anames]
+        if depth >= 1 and r.random() < self.features.get('twins', .15):
+            tw = self.twins()
+            if not any(self.avoid(tm, 'member', self.spec_resolve) for tm in tw) and not any(
+                    self.avoid(x, 'type', self.spec_resolve) for tm in tw for x in subtypes(tm.ty)):
+                alts += [(tm.name, tm.ty) for tm in tw]
+        return TChoice(alts, ext=r.random() < self.features.get('choice_ext', 0))
 
     def default_for(self, ty):
         """A DEFAULT value for member type [ty] (None: no default for this kind)."""
